@@ -1,12 +1,18 @@
 import QuinnModel.Lemmas.Timers
 import QuinnModel.Recovery.Pacing
+import QuinnModel.Gen.Entropy
 /-
 C20 — The protocol core is deterministic and driven only by its inputs.   (property theorems only; PARTIAL)
 A Lean model is a function of its inputs, so determinism of the MODEL is vacuous; what is proved here are the
 algebraic facts the property names — time-translation equivariance of everything modelled that reads or
 writes instants, spurious timeout calls being no-ops, one timeout call settling the modelled timers, a
-drained connection being silent.  Absence of hidden inputs in the Rust (clock, entropy) is not a theorem:
-it is checked differentially by the simulator (`determ` scenario: replay, shifted replay, spurious calls).
+drained connection being silent.  Absence of hidden inputs in the Rust (clock, entropy) is not a theorem about
+behaviour: it is checked (a) STATICALLY: the T1 plugin `tools/gen.d/entropy.py` lists every construct of
+quinn-proto's production code that reads a clock, OS entropy, the environment, a thread, or iterates a randomly
+keyed std HashMap/HashSet (`Gen.hiddenInputs`), and `hidden_inputs_are_the_allowlisted_ones` pins that list to
+the committed, individually justified allowlist (configuration constructors, pluggable CID generators, the
+default TimeSource, qlog, lookup-only hash maps); (b) differentially by the simulator (`determ`: replay, shifted
+replay, spurious calls; `determcc`: the controller-visible state of every congestion controller across replays).
 -/
 namespace QM.Props.C20
 open QM
@@ -74,7 +80,31 @@ theorem pacing_shift_equivariant (d now rtt deficit window : Nat) :
     smoothed RTT 45.2 µs, one missing token and a window of 12000 bytes the delay rounds to 0 ns -/
 theorem pacing_old_tail_could_return_now : Pacing.tailOld 5046188 45200 1 12000 = some 5046188 := by decide
 
+/-- the constructs of quinn-proto's production code that read a clock, OS entropy, the environment or a thread,
+    or expose the order of a randomly keyed hash table, are EXACTLY the allowlisted ones (each justified in
+    `tools/gen.d/entropy.py`: none is reachable from `Connection` / `Endpoint` methods once the configuration
+    objects are built with explicit seeds, keys, CID generator and TimeSource) -/
+theorem hidden_inputs_are_the_allowlisted_ones : Gen.hiddenInputs = Gen.hiddenInputsAllowed := by decide
+
+/-- the files that contain such a construct at all: configuration, pluggable CID generators, token stores, the
+    endpoint constructor, and BBR's public stand-alone constructor — no file of the connection state machine
+    (`quinn-proto/src/connection/**`), no frame / packet / transport-parameter / token codec -/
+theorem hidden_input_files :
+    (Gen.hiddenInputs.map (·.1)).eraseDups =
+      ["quinn-proto/src/bloom_token_log.rs", "quinn-proto/src/cid_generator.rs", "quinn-proto/src/config/mod.rs",
+       "quinn-proto/src/config/transport.rs", "quinn-proto/src/congestion/bbr/mod.rs", "quinn-proto/src/endpoint.rs",
+       "quinn-proto/src/token_memory_cache.rs"] := by decide
+
+/-- the only construct inside a congestion controller is the public constructor `Bbr::new`, which connections do
+    not reach: `PathData::new` / `PathData::reset` build controllers with `ControllerFactory::build_seeded` and a
+    value drawn from `Connection.rng` (T1 anchor `Gen.bbrSeededShapeChecked`) -/
+theorem controllers_seeded_from_the_connection_rng :
+    Gen.hiddenInputs.filter (fun x => x.1 == "quinn-proto/src/congestion/bbr/mod.rs")
+      = [("quinn-proto/src/congestion/bbr/mod.rs", "Bbr::new", "rand::rng(")]
+    ∧ Gen.bbrSeededShapeChecked = 1 := by decide
+
 -- non-vacuity
+example : Gen.hiddenInputs.length = 13 := by decide
 example : Pacing.tail 1000 1000000 600 12000 = some 41000 := by decide
 example : Pacing.tail 5046188 45200 1 12000 = none := by decide
 example : Timers.nextTimeout (Timers.set (Timers.set Timers.empty 1 500) 2 300) = some 300 := by decide
